@@ -339,12 +339,12 @@ def h_agg(nu: int, ns: int, no: int, ni: int, hostile: bool) -> bool:
 
 # ---- database level: missing file, unknown compiler, unknown option ---------------------------
 
-DB_KINDS = ["ok", "missing-file", "unknown-compiler", "unknown-option", "two-unknown-options", "unknown-compiler-and-option"]
+DB_KINDS = ["ok", "missing-file", "unknown-compiler", "unknown-option", "two-unknown-options", "unknown-compiler-and-option", "response-file"]
 
 
 def h_db(k1: int, k2: int, same: bool) -> bool:
     """
-    pre: 0 <= k1 < 6 and 0 <= k2 < 6
+    pre: 0 <= k1 < 7 and 0 <= k2 < 7
     post: _
     """
     import codebasin
@@ -352,7 +352,7 @@ def h_db(k1: int, k2: int, same: bool) -> bool:
 
     ks = []
     for v in (k1, k2):
-        for j in range(6):
+        for j in range(7):
             if v == j:
                 ks.append(j)
     sm = bool(same)
@@ -381,6 +381,10 @@ def h_db(k1: int, k2: int, same: bool) -> bool:
             if kind in ("unknown-option", "unknown-compiler-and-option"):
                 flags = ["-fweird%s" % tag] + flags
                 tally["-fweird%s" % tag] += 1
+            if kind == "response-file":
+                # options hidden in a response file are not honoured: that must be said (and the file not be taken for a source)
+                flags = ["@opts%s.rsp" % tag] + flags
+                tally["opts%s.rsp" % tag] += 1
             if kind == "two-unknown-options":
                 flags = ["-fweird%s" % tag, "--param", "-fother%s" % tag] + flags
                 tally["-fweird%s" % tag] += 1
@@ -502,4 +506,4 @@ CLAIM = ("Within the bounds, for every existence pattern the warnings the real c
          "name, form) the unresolvable includes a reference preprocessor reaches; unknown directives and missing forced includes "
          "are reported once each; the aggregator's printed totals equal the numbers of records it saw, for all counts in range.")
 LEVEL_NOTE = ("Trusted: CrossHair/z3, vp/memfs.py, vp/refs/ref_cpp.py. Bounded: 3 include templates, a 22-name directive "
-              "catalogue, 0..3/5 records per category. Database-level warnings: db/ (2 entries x 6 kinds).")
+              "catalogue, 0..3/5 records per category. Database-level warnings: db/ (2 entries x 7 kinds, same or different names).")
